@@ -12,13 +12,13 @@
 (* the trace goes on.  Details carry what a known-finding signature needs  *)
 (* (e.g. whether a retransmission window was open).                        *)
 (***************************************************************************)
-EXTENDS TraceBase, FiniteSets
+EXTENDS TraceBase, FiniteSets, StunWire
 
-VARIABLES l, cfg, st, ws, ended, cbs, win, closeRet, closeOK, connCloses, lastDel, exited, lastNow, pendGarbage, cbSeen, k4, k2, pend, closing
+VARIABLES l, cfg, st, ws, ended, cbs, win, closeRet, closeOK, connCloses, lastDel, exited, lastNow, pendGarbage, cbSeen, k4, k2, pend, closing, texit
 
-vars == << l, cfg, st, ws, ended, cbs, win, closeRet, closeOK, connCloses, lastDel, exited, lastNow, pendGarbage, cbSeen, k4, k2, pend, closing >>
+vars == << l, cfg, st, ws, ended, cbs, win, closeRet, closeOK, connCloses, lastDel, exited, lastNow, pendGarbage, cbSeen, k4, k2, pend, closing, texit >>
 
-vars_noL == << cfg, st, ws, ended, cbs, win, closeRet, closeOK, connCloses, lastDel, exited, lastNow, pendGarbage, cbSeen, k4, k2, pend, closing >>
+vars_noL == << cfg, st, ws, ended, cbs, win, closeRet, closeOK, connCloses, lastDel, exited, lastNow, pendGarbage, cbSeen, k4, k2, pend, closing, texit >>
 
 Mode == IOEnv.VERIF_MODE
 On(m) == Mode = m
@@ -42,11 +42,12 @@ Fresh ==
   /\ k2' = {}              \* ids retransmitted after their end from a window opened before it (K2)
   /\ pend' = << >>         \* the decodable datagram the reader is processing: [id, raw, expect]
   /\ closing' = FALSE      \* Close has been called
+  /\ texit' = << >>        \* id -> line of the last exit of a timeout callback for that id
 
 Init == RegInit /\ l = 1 /\ cfg = [maxattempts |-> 7, rto |-> 1, closeconn |-> TRUE, fallback |-> TRUE]
         /\ st = << >> /\ ws = << >> /\ ended = {} /\ cbs = << >> /\ win = << >> /\ closeRet = FALSE /\ closeOK = 0
         /\ connCloses = 0 /\ lastDel = << >> /\ exited = {} /\ lastNow = << >> /\ pendGarbage = FALSE
-        /\ cbSeen = {} /\ k4 = {} /\ k2 = {} /\ pend = << >> /\ closing = FALSE
+        /\ cbSeen = {} /\ k4 = {} /\ k2 = {} /\ pend = << >> /\ closing = FALSE /\ texit = << >>
 
 Get(f, k, d) == IF k \in DOMAIN f THEN f[k] ELSE d
 Set(f, k, v) == [x \in DOMAIN f \cup {k} |-> IF x = k THEN v ELSE f[x]]
@@ -59,6 +60,10 @@ InFlight(i) == StartOfId(i) # 0 /\ i \notin ended /\ st[StartOfId(i)].ret \in {"
 WindowOpenFor(i) == \E p \in DOMAIN win : win[p].id = i
 \* a timeout callback for i is in progress in some goroutine (between the client-table delete and the write)
 InTimeoutCallback(i) == \E p \in DOMAIN cbs : Len(cbs[p]) > 0 /\ cbs[p][Len(cbs[p])].id = i /\ cbs[p][Len(cbs[p])].kind = "timeout"
+\* ... or such a callback ended after the current callback of goroutine p began: the two overlapped in time even if
+\* the log shows the fallback call only after the other callback's exit (free-running goroutines)
+OverlappedTimeoutCallback(i, p) ==
+  InTimeoutCallback(i) \/ (InCb(p) /\ i \in DOMAIN texit /\ texit[i] > cbs[p][Len(cbs[p])].line)
 Via(p) == IF InCb(p) THEN cbs[p][Len(cbs[p])].kind ELSE "start"
 
 N == cfg.maxattempts
@@ -72,7 +77,7 @@ Step(n, e) ==
          /\ Fresh
     [] e.k = "start_call" ->
          /\ st' = Set(st, e.s, [id |-> e.id, line |-> n, ret |-> "none", calls |-> 0, afterClose |-> closeRet, t0 |-> e.t])
-         /\ UNCHANGED << cfg, ws, ended, cbs, win, closeRet, closeOK, connCloses, lastDel, exited, lastNow, pendGarbage, cbSeen, k4, k2, pend, closing >>
+         /\ UNCHANGED << cfg, ws, ended, cbs, win, closeRet, closeOK, connCloses, lastDel, exited, lastNow, pendGarbage, cbSeen, k4, k2, pend, closing, texit >>
     [] e.k = "start_ret" ->
          LET s == st[e.s] IN
          /\ OnO("C10") => Require(~(e.err # "nil" /\ s.calls > 0), n, "handler-after-start-error",
@@ -81,21 +86,22 @@ Step(n, e) ==
          /\ On("C10") => Require((Has(e, "do") /\ e.do /\ e.err = "nil") => s.calls = 1, n, "do-returned-before-its-handler-ran",
                                  [s |-> e.s, calls |-> s.calls])
          /\ st' = Set(st, e.s, [s EXCEPT !.ret = e.err])
-         /\ UNCHANGED << cfg, ws, ended, cbs, win, closeRet, closeOK, connCloses, lastDel, exited, lastNow, pendGarbage, cbSeen, k4, k2, pend, closing >>
+         /\ UNCHANGED << cfg, ws, ended, cbs, win, closeRet, closeOK, connCloses, lastDel, exited, lastNow, pendGarbage, cbSeen, k4, k2, pend, closing, texit >>
     [] e.k = "now" ->
          /\ lastNow' = Set(lastNow, e.p, e.t)
          /\ win' = IF InCb(e.p)
                    THEN LET top == cbs[e.p][Len(cbs[e.p])] IN
                         Set(win, e.p, [id |-> top.id, reg |-> e.t, endedBefore |-> top.id \in ended])
                    ELSE win
-         /\ UNCHANGED << cfg, st, ws, ended, cbs, closeRet, closeOK, connCloses, lastDel, exited, pendGarbage, cbSeen, k4, k2, pend, closing >>
+         /\ UNCHANGED << cfg, st, ws, ended, cbs, closeRet, closeOK, connCloses, lastDel, exited, pendGarbage, cbSeen, k4, k2, pend, closing, texit >>
     [] e.k = "cb" ->
-         /\ cbs' = Set(cbs, e.p, Append(Get(cbs, e.p, <<>>), [kind |-> e.kind, id |-> e.id]))
+         /\ cbs' = Set(cbs, e.p, Append(Get(cbs, e.p, <<>>), [kind |-> e.kind, id |-> e.id, line |-> n]))
          /\ cbSeen' = cbSeen \cup {e.id}
-         /\ UNCHANGED << cfg, st, ws, ended, win, closeRet, closeOK, connCloses, lastDel, exited, lastNow, pendGarbage, k4, k2, pend, closing >>
+         /\ UNCHANGED << cfg, st, ws, ended, win, closeRet, closeOK, connCloses, lastDel, exited, lastNow, pendGarbage, k4, k2, pend, closing, texit >>
     [] e.k = "cbexit" ->
          /\ cbs' = IF InCb(e.p) THEN Set(cbs, e.p, SubSeq(cbs[e.p], 1, Len(cbs[e.p]) - 1)) ELSE cbs
          /\ win' = IF Len(Get(cbs, e.p, <<>>)) <= 1 THEN Del(win, e.p) ELSE win
+         /\ texit' = IF e.kind = "timeout" THEN Set(texit, e.id, n) ELSE texit
          /\ UNCHANGED << cfg, st, ws, ended, closeRet, closeOK, connCloses, lastDel, exited, lastNow, pendGarbage, cbSeen, k4, k2, pend, closing >>
     [] e.k = "write" ->
          LET i == e.id
@@ -123,7 +129,7 @@ Step(n, e) ==
          /\ win' = IF retx THEN Del(win, e.p) ELSE win
          /\ k4' = IF ~retx /\ ~e.ok /\ i \in cbSeen THEN k4 \cup {i} ELSE k4
          /\ k2' = IF i \in ended /\ k >= 1 /\ e.p \in DOMAIN win /\ ~win[e.p].endedBefore THEN k2 \cup {i} ELSE k2
-         /\ UNCHANGED << cfg, st, ended, cbs, closeRet, closeOK, connCloses, lastDel, exited, lastNow, pendGarbage, cbSeen, pend, closing >>
+         /\ UNCHANGED << cfg, st, ended, cbs, closeRet, closeOK, connCloses, lastDel, exited, lastNow, pendGarbage, cbSeen, pend, closing, texit >>
     [] e.k = "handler" ->
          LET s == st[e.s]
              i == s.id
@@ -141,33 +147,34 @@ Step(n, e) ==
                  Require(Len(SelectSeq(Get(ws, i, <<>>), LAMBDA w : w.retx)) = N /\ e.t > lastreg + (N + 1) * Rto, n, "timeout-before-last-deadline",
                          [s |-> e.s, transmissions |-> Len(Get(ws, i, <<>>)), limit |-> N + 1, at |-> e.t, last |-> lastreg, k4 |-> i \in k4])
          /\ On("C12") =>
-              /\ Require(e.id = i, n, "event-for-another-transaction", [s |-> e.s, handler_id |-> i, event_id |-> e.id])
+              /\ Require(e.id = i, n, "event-for-another-transaction", [s |-> e.s, handler_id |-> i, event_id |-> e.id, k4 |-> i \in k4])
+              /\ ((e.kind = "msg") => Require(Parse(e.msg).ok, n, "undecodable-datagram-delivered", [s |-> e.s, size |-> Len(e.msg)]))
               /\ ((e.kind = "msg") => Require(\E d \in Get(lastDel, e.id, {}) : Trace[d].raw = e.msg, n, "message-is-not-the-received-datagram", [s |-> e.s]))
          /\ OnO("C15") => Require(~closeRet, n, "handler-after-close", [s |-> e.s, kind |-> e.kind, p |-> e.p, k4 |-> i \in k4])
          /\ st' = Set(st, e.s, [s EXCEPT !.calls = @ + 1])
          /\ ended' = ended \cup {i}
          /\ pend' = IF e.kind = "msg" /\ pend # << >> /\ Trace[pend.line].raw = e.msg THEN << >> ELSE pend
-         /\ UNCHANGED << cfg, ws, cbs, win, closeRet, closeOK, connCloses, lastDel, exited, lastNow, pendGarbage, cbSeen, k4, k2, closing >>
+         /\ UNCHANGED << cfg, ws, cbs, win, closeRet, closeOK, connCloses, lastDel, exited, lastNow, pendGarbage, cbSeen, k4, k2, closing, texit >>
     [] e.k = "fallback" ->
          /\ On("C12") =>
               /\ ((e.kind = "msg" /\ InOrder) => Require(~InFlight(e.id), n, "response-to-fallback-while-in-flight",
-                                             [id |-> e.id, in_retransmission_window |-> InTimeoutCallback(e.id), k4 |-> e.id \in k4]))
+                                             [id |-> e.id, in_retransmission_window |-> OverlappedTimeoutCallback(e.id, e.p), k4 |-> e.id \in k4]))
               \* (timeout / closed events of a transaction that reach the fallback handler are not messages: the
               \*  property is silent about them)
               /\ ((e.kind = "msg") => Require(\E d \in Get(lastDel, e.id, {}) : Trace[d].raw = e.msg, n, "message-is-not-the-received-datagram", [id |-> e.id]))
+              /\ ((e.kind = "msg") => Require(Parse(e.msg).ok, n, "undecodable-datagram-delivered", [id |-> e.id, size |-> Len(e.msg)]))
          /\ OnO("C15") => Require(~closeRet, n, "handler-after-close", [kind |-> e.kind, p |-> e.p])
          /\ pend' = IF e.kind = "msg" /\ pend # << >> /\ Trace[pend.line].raw = e.msg THEN << >> ELSE pend   \* (misdelivery is the business of the requirement above)
-         /\ UNCHANGED << cfg, st, ws, ended, cbs, win, closeRet, closeOK, connCloses, lastDel, exited, lastNow, pendGarbage, cbSeen, k4, k2, closing >>
+         /\ UNCHANGED << cfg, st, ws, ended, cbs, win, closeRet, closeOK, connCloses, lastDel, exited, lastNow, pendGarbage, cbSeen, k4, k2, closing, texit >>
     [] e.k = "read_ret" ->
          \* a datagram reaches the reader; a decodable one must end up at its transaction's handler or, when it
          \* matches no transaction, at the fallback handler (if set) - unless the client is being closed
-         LET decodable == Len(e.raw) >= 20 /\ e.raw[5] = 33 /\ e.raw[6] = 18 /\ e.raw[7] = 164 /\ e.raw[8] = 66
-                          /\ Len(e.raw) >= 20 + e.raw[3] * 256 + e.raw[4]
+         LET decodable == Parse(e.raw).ok
          IN /\ pend' = IF decodable /\ ~closing
                       THEN [id |-> e.id, line |-> n, expect |-> IF InFlight(e.id) /\ e.id \notin k4 /\ ~InTimeoutCallback(e.id)
                                                                    THEN "handler" ELSE IF cfg.fallback THEN "any" ELSE "none"]
                       ELSE << >>
-            /\ UNCHANGED << cfg, st, ws, ended, cbs, win, closeRet, closeOK, connCloses, lastDel, exited, lastNow, pendGarbage, cbSeen, k4, k2, closing >>
+            /\ UNCHANGED << cfg, st, ws, ended, cbs, win, closeRet, closeOK, connCloses, lastDel, exited, lastNow, pendGarbage, cbSeen, k4, k2, closing, texit >>
     [] e.k = "read" ->
          \* the reader asks for the next datagram: the previous one has been dealt with
          \* (a transaction that ended meanwhile explains a message that went elsewhere; after a drift the
@@ -176,18 +183,22 @@ Step(n, e) ==
                Require(pend.expect = "none" \/ (pend.expect = "handler" /\ pend.id \in ended), n, "received-message-not-delivered",
                        [id |-> pend.id, size |-> Len(Trace[pend.line].raw), expected |-> pend.expect])
          /\ pend' = << >>
-         /\ UNCHANGED << cfg, st, ws, ended, cbs, win, closeRet, closeOK, connCloses, lastDel, exited, lastNow, pendGarbage, cbSeen, k4, k2, closing >>
+         /\ UNCHANGED << cfg, st, ws, ended, cbs, win, closeRet, closeOK, connCloses, lastDel, exited, lastNow, pendGarbage, cbSeen, k4, k2, closing, texit >>
     [] e.k = "close_call" ->
          /\ closing' = TRUE
-         /\ UNCHANGED << cfg, st, ws, ended, cbs, win, closeRet, closeOK, connCloses, lastDel, exited, lastNow, pendGarbage, cbSeen, k4, k2, pend >>
+         /\ UNCHANGED << cfg, st, ws, ended, cbs, win, closeRet, closeOK, connCloses, lastDel, exited, lastNow, pendGarbage, cbSeen, k4, k2, pend, texit >>
     [] e.k = "deliver" ->
          \* every datagram delivered for the id (responses to retransmissions may differ)
          /\ lastDel' = IF e.kind = "msg" THEN Set(lastDel, e.id, Get(lastDel, e.id, {}) \cup {n}) ELSE lastDel
-         /\ UNCHANGED << cfg, st, ws, ended, cbs, win, closeRet, closeOK, connCloses, exited, lastNow, pendGarbage, cbSeen, k4, k2, pend, closing >>
+         /\ UNCHANGED << cfg, st, ws, ended, cbs, win, closeRet, closeOK, connCloses, exited, lastNow, pendGarbage, cbSeen, k4, k2, pend, closing, texit >>
     [] e.k = "close_ret" ->
          /\ On("C15") =>
-              /\ Require((e.err \in {"nil", "closeerr"}) = (closeOK = 0), n, "close-result",
+              \* exactly one Close succeeds: never a second success; every other result is ErrClientClosed
+              \* (concurrent callers may see it before the successful call has returned)
+              /\ Require(e.err \in {"nil", "closeerr", "closed"} /\ ((e.err \in {"nil", "closeerr"}) => closeOK = 0) , n, "close-result",
                          [err |-> e.err, successful_closes_before |-> closeOK])
+              /\ Require((e.err = "closed") => (closeOK > 0 \/ Has(e, "free")), n, "close-refused-before-any-close-succeeded",
+                         [err |-> e.err])
               /\ (e.err \notin {"nil", "closeerr"}) \/
                     /\ Require(e.alive = <<>> /\ (Has(e, "free") \/ "CL" \in exited), n, "goroutine-alive-when-close-returns",
                                [alive |-> e.alive, exited |-> exited])
@@ -196,16 +207,23 @@ Step(n, e) ==
          /\ closeRet' = (closeRet \/ e.err \in {"nil", "closeerr"})
          /\ closeOK' = closeOK + (IF e.err \in {"nil", "closeerr"} THEN 1 ELSE 0)
          /\ ended' = IF e.err \in {"nil", "closeerr"} THEN ended \cup { st[s].id : s \in DOMAIN st } ELSE ended
-         /\ UNCHANGED << cfg, st, ws, cbs, win, connCloses, lastDel, exited, lastNow, pendGarbage, cbSeen, k4, k2, pend, closing >>
+         /\ UNCHANGED << cfg, st, ws, cbs, win, connCloses, lastDel, exited, lastNow, pendGarbage, cbSeen, k4, k2, pend, closing, texit >>
+    [] e.k = "close_ret2" ->
+         \* a second, concurrent Close (free-running runs): exactly one of all Close calls succeeds
+         /\ On("C15") => Require(e.err \in {"nil", "closeerr", "closed"} /\ ((e.err \in {"nil", "closeerr"}) => closeOK = 0), n, "close-result",
+                                 [err |-> e.err, successful_closes_before |-> closeOK])
+         /\ closeOK' = closeOK + (IF e.err \in {"nil", "closeerr"} THEN 1 ELSE 0)
+         /\ UNCHANGED << cfg, st, ws, ended, cbs, win, closeRet, connCloses, lastDel, exited, lastNow, pendGarbage, cbSeen, k4, k2, pend, closing, texit >>
     [] e.k = "conn_close" ->
          /\ On("C15") => Require(cfg.closeconn /\ connCloses = 0, n, "connection-ownership",
                                  [conn_closes |-> connCloses + 1, closeconn |-> cfg.closeconn])
          /\ connCloses' = connCloses + 1
-         /\ UNCHANGED << cfg, st, ws, ended, cbs, win, closeRet, closeOK, lastDel, exited, lastNow, pendGarbage, cbSeen, k4, k2, pend, closing >>
+         /\ UNCHANGED << cfg, st, ws, ended, cbs, win, closeRet, closeOK, lastDel, exited, lastNow, pendGarbage, cbSeen, k4, k2, pend, closing, texit >>
     [] e.k = "exit" ->
          /\ exited' = exited \cup {e.p}
-         /\ UNCHANGED << cfg, st, ws, ended, cbs, win, closeRet, closeOK, connCloses, lastDel, lastNow, pendGarbage, cbSeen, k4, k2, pend, closing >>
+         /\ UNCHANGED << cfg, st, ws, ended, cbs, win, closeRet, closeOK, connCloses, lastDel, lastNow, pendGarbage, cbSeen, k4, k2, pend, closing, texit >>
     [] e.k = "end" ->
+         /\ On("C15") => Require(closing => closeOK <= 1, n, "close-result", [successful_closes |-> closeOK])
          \* quiescence: Close returned and every Start returned
          /\ (On("C10") /\ closeRet /\ \A s \in DOMAIN st : st[s].ret # "none") =>
               \A s \in DOMAIN st :
@@ -217,8 +235,9 @@ Step(n, e) ==
          \* requirements that do not depend on the exact order of concurrent events stay armed (InOrder)
          /\ Drift(n, e.why, [p |-> e.p, from |-> e.from, want |-> e.want, got |-> e.got])
          /\ pendGarbage' = TRUE
-         /\ UNCHANGED << cfg, st, ws, ended, cbs, win, closeRet, closeOK, connCloses, lastDel, exited, lastNow, cbSeen, k4, k2, pend, closing >>
+         /\ UNCHANGED << cfg, st, ws, ended, cbs, win, closeRet, closeOK, connCloses, lastDel, exited, lastNow, cbSeen, k4, k2, pend, closing, texit >>
     [] e.k = "race" -> Reject(n, "data-race", e.report) /\ UNCHANGED vars_noL
+    [] e.k = "libpanic" -> Reject(n, "library-panic", e.report) /\ UNCHANGED vars_noL
     [] e.k = "stuck" -> Reject(n, "stuck-goroutines", e.report) /\ UNCHANGED vars_noL
     [] OTHER -> UNCHANGED vars_noL      \* tick, close_call: no requirement attached
 
